@@ -27,8 +27,18 @@ class UserError(Exception):
     pass
 
 
+class StrFails(Exception):
+    def __str__(self):
+        raise RuntimeError('str() of this exception fails')
+
+
+def _unicode_error(msg):
+    return UnicodeDecodeError('utf-8', b'\xff', 0, 1, msg)
+
+
 EXCS = {'ValueError': ValueError, 'TypeError': TypeError, 'KeyError': KeyError, 'AttributeError': AttributeError, 'RuntimeError': RuntimeError,
-        'RecursionError': RecursionError, 'UserError': UserError}
+        'RecursionError': RecursionError, 'UserError': UserError, 'StopIteration': StopIteration, 'UnicodeDecodeError': _unicode_error,
+        'OSError': lambda msg: OSError(2, msg), 'AssertionError': AssertionError, 'StrFails': StrFails, 'ImportError': ImportError, 'LookupError': LookupError}
 
 
 class Node:
@@ -42,6 +52,23 @@ class Node:
 
     def __str__(self):
         return 'str() of node %s - must not be used for the fallback' % self.name
+
+
+class DNode(Node):
+    """printer registered lazily by qualified name"""
+
+
+class PNode:
+    """printer registered through a predicate (no class registration at all)"""
+
+    def __init__(self, name, children):
+        self.name, self.children = name, children
+
+    def __repr__(self):
+        return '<PNode %s with %d children>' % (self.name, len(self.children))
+
+    def __str__(self):
+        return 'str() of pnode %s - must not be used' % self.name
 
 
 class Stub:
@@ -86,6 +113,24 @@ def pretty_node(node, ctx, trailing_comment=None):
     return doc
 
 
+@register_pretty(__name__ + '.DNode')
+def pretty_dnode(node, ctx, trailing_comment=None):
+    return pretty_node(node, ctx, trailing_comment=trailing_comment)
+
+
+@register_pretty(predicate=lambda v: type(v) is PNode)
+def pretty_pnode(node, ctx):
+    FAULTS.printer_calls += 1
+    FAULTS.hit(node, 'before')
+    doc = pretty_call_alt(ctx, PNode, args=(node.name, node.children))
+    FAULTS.hit(node, 'after')
+    p = FAULTS.plan.get(id(node))
+    if p and p[0] == 'return':
+        FAULTS.hits += 1
+        return p[1]
+    return doc
+
+
 @register_pretty(Stub)
 def pretty_stub(stub, ctx, trailing_comment=None):
     return repr(stub.node)
@@ -102,19 +147,28 @@ def gen_tree(rng, depth, names):
     if c < 0.6:
         name = 'n%d' % len(names)
         names.append(name)
-        r = ['node', name, [gen_tree(rng, depth - 1, names) for _ in range(rng.randint(0, 3))]]
+        r = [rng.choice(['node', 'node', 'dnode', 'pnode']), name, [gen_tree(rng, depth - 1, names) for _ in range(rng.randint(0, 3))]]
     elif c < 0.75:
         r = ['list', [gen_tree(rng, depth - 1, names) for _ in range(rng.randint(0, 3))]]
     elif c < 0.85:
         r = ['tuple', [gen_tree(rng, depth - 1, names) for _ in range(rng.randint(1, 3))]]
     else:
-        r = ['dict', [[['str', 'k%d' % i], gen_tree(rng, depth - 1, names)] for i in range(rng.randint(1, 3))]]
+        pairs = []
+        for i in range(rng.randint(1, 3)):
+            if rng.random() < 0.3:
+                kname = 'n%d' % len(names)
+                names.append(kname)
+                key = [rng.choice(['node', 'dnode', 'pnode']), kname, []]
+            else:
+                key = ['str', 'k%d' % i]
+            pairs.append([key, gen_tree(rng, depth - 1, names)])
+        r = ['dict', pairs]
     w = rng.random()
     if w < 0.2:
         r = ['comment', r, rng.choice(['note', 'two words', 'a b c d e f g'])]
-    elif w < 0.4 and r[0] in ('node', 'list', 'tuple', 'dict'):
+    elif w < 0.4 and r[0] in ('node', 'dnode', 'list', 'tuple', 'dict'):
         r = ['tcomment', r, rng.choice(['trailing', 'trailing note here'])]
-    elif w < 0.45 and r[0] in ('node', 'list'):
+    elif w < 0.45 and r[0] in ('node', 'dnode', 'list'):
         r = ['comment', ['tcomment', r, 'tr'], 'lead']
     return r
 
@@ -122,8 +176,9 @@ def gen_tree(rng, depth, names):
 def build(r, reg, stub=()):
     """reg: name -> Node object (filled). stub: names replaced by Stub(node)."""
     k = r[0]
-    if k == 'node':
-        node = Node(r[1], [build(c, reg, stub) for c in r[2]])
+    if k in ('node', 'dnode', 'pnode'):
+        cls = {'node': Node, 'dnode': DNode, 'pnode': PNode}[k]
+        node = cls(r[1], [build(c, reg, stub) for c in r[2]])
         reg[r[1]] = node
         return Stub(node) if r[1] in stub else node
     if k == 'list':
@@ -145,21 +200,21 @@ def node_has_tcomment(r, name, under=False):
         return node_has_tcomment(r[1], name, True)
     if k == 'comment':
         return node_has_tcomment(r[1], name, under)
-    if k == 'node':
+    if k in ('node', 'dnode', 'pnode'):
         if r[1] == name:
             return under
         return any(node_has_tcomment(c, name) for c in r[2])
     if k in ('list', 'tuple'):
         return any(node_has_tcomment(c, name) for c in r[1])
     if k == 'dict':
-        return any(node_has_tcomment(b, name) for a, b in r[1])
+        return any(node_has_tcomment(a, name) or node_has_tcomment(b, name) for a, b in r[1])
     return False
 
 
 def root_name(r):
     while r[0] in ('comment', 'tcomment'):
         r = r[1]
-    return r[1] if r[0] == 'node' else None
+    return r[1] if r[0] in ('node', 'dnode', 'pnode') else None
 
 
 def inject(sh, recipe, names, failing, excname, point, cfg, baseline):
@@ -203,9 +258,12 @@ def inject(sh, recipe, names, failing, excname, point, cfg, baseline):
         other = [w for w in ws if w not in fb]
         sh.violation('other-warning' + suffix, 'unexpected extra warning %r' % (other[0][1][:200],), case)
         return
+    kinds = {type(reg[n]).__name__ for n in failing}
+    names_ok = {'Node': PRINTER_NAME, 'DNode': __name__ + '.pretty_dnode', 'PNode': 'pretty_pnode'}
     for w in fb:
-        if w[0] != 'UserWarning' or PRINTER_NAME not in w[1] or excname not in w[1]:
-            sh.violation('warning-text' + suffix, 'warning does not name the printer %s and %s: %r' % (PRINTER_NAME, excname, w[1][:300]), case)
+        excword = 'StrFails' if excname == 'StrFails' else (type(EXCS[excname]('x')).__name__)
+        if w[0] != 'UserWarning' or not any(names_ok[k_] in w[1] for k_ in kinds) or excword not in w[1]:
+            sh.violation('warning-text' + suffix, 'warning does not name the printer %s and %s: %r' % (sorted(names_ok[k_] for k_ in kinds), excword, w[1][:300]), case)
             return
     ok, msg, st = c13.TR.check()
     if not ok:
@@ -218,6 +276,8 @@ def inject(sh, recipe, names, failing, excname, point, cfg, baseline):
     sh.counters['faults contained and verified'] += 1
     sh.counters['fallback warnings verified'] += len(fb)
     sh.see('exception classes contained', excname)
+    for k_ in kinds:
+        sh.see('failing printer registered as', {'Node': 'class', 'DNode': 'deferred name', 'PNode': 'predicate'}[k_])
     sh.see('fault points', point)
     if tc:
         sh.counters['faults under a trailing comment verified'] += 1
@@ -292,7 +352,7 @@ def run_tree(sh, i, quick):
         for excname in EXCS:
             for point in ('before', 'after'):
                 inject(sh, recipe, names, [name], excname, point, cfg, baseline)
-                sh.case((repr(recipe), name, excname, point), nontrivial=(root_name(recipe) != name or recipe[0] != 'node'))
+                sh.case((repr(recipe), name, excname, point), nontrivial=(root_name(recipe) != name or recipe[0] not in ('node', 'dnode', 'pnode')))
     for _ in range(4 if quick else 12):
         if len(names) >= 2:
             pair = rng.sample(names, 2)
@@ -320,6 +380,8 @@ def finalize(m):
                  'invalid returns reported with ValueError', 'pair injections'):
         if not m.counters.get(name):
             m.inconclusive.append('monitor never reached: ' + name)
+    if len(m.sets.get('failing printer registered as', ())) < 3:
+        m.inconclusive.append('not every registration kind of failing printer was exercised')
     if len(m.sets.get('exception classes contained', ())) < len(EXCS):
         m.inconclusive.append('not every exception class was seen contained')
 
